@@ -236,6 +236,9 @@ EXTRA = {
     "C16": " The state machine is bound to the code by generated flags (reseed rebuilds from the stored seed only, every pass and probe reseeds without argument, one index draw for both attributes); reproducibility is proved after ANY sequence of earlier passes, partial passes and probes (reproducible_after_any_use). Footprint (Yaw.C16Box.*, over the reals, on the generated BoxRandoms formulas): every drawn point lies in the requested window for every window incl. the poles (box_window), the inverse cylinder map undoes the map (cyl_roundtrip), a sky box is the image of exactly the rectangle [a,b] x [sin c, sin d] (preimage_box) whose area equals the spherical area of the box (equal_area: integral of cos dec) - so only the uniformity of Generator.uniform itself remains trusted.",
     "C01": " Front door of the tree counter (Yaw.C01Tree.*): parse_ang_limits is regenerated as a Bool kernel over the limit lists and proved to accept exactly equal-length lists with 0 <= min < max <= pi per scale (ang_limits_spec, accepted_scale); flags bind AngularTree.__init__ / empty / count (records and weights in one order, weights passed in the order of the trees, empty trees count zero).",
     "C11": " Text format (Yaw.C11Fmt.*): format_float_fixed_width is modelled on exact values (half-even rounding to `width` decimals, then truncation of the string to max(width, sign + integer digits) characters); fmt_precision - for EVERY finite value what is read back differs by less than one unit of the last kept decimal plus the 1e-10 rounding (7 decimals below 10, 6 below 100, ..., better than 1 once the integer part fills the width); keep_idem - re-writing a re-read value changes nothing. Flags bind the function and its use with PRECISION = 10; the real function is compared value by value (exact fractions) with the model incl. rounding ties and carries. Write sites: every file the library writes is opened truncating (write_sites_truncate).",
+    "C04": " Route and derivation flags: from_corrfuncs samples every correlation function it is given and hands it to its own slot of from_corrdata (Yaw.Glue.glue_flags); CorrFunc * x, .bins[...], .patches[...] and + rebuild their result BY NAME from the members present, and + requires the same members (Yaw.C17Ctor.corrfunc_algebra_flags) - so the estimator that applies to a measurement applies to everything derived from it; the derived containers are sampled and compared with the measurement's own estimate.",
+    "C13": " cov_perm_invariant / mean_perm: the delete-one jackknife covariance and the sample mean are invariant under any permutation of the samples, hence under relabelling of the patches (with label_perm_equivariant: amplitudes, samples and covariance).",
+    "C08": " The flags of the creation protocol (Yaw.C09.flags, outcome: the marker of a complete catalog is written on a clean exit of the writer only) are obligations here as well.",
     "C15": " Cosmology handling (Yaw.C15Cosmo.*): the decision chains of parse_cosmology / cosmology_to_yaml / yaml_to_cosmology / cosmology_is_equal are regenerated (chain translator over isinstance / None tests) and proved: no value -> default model, name -> predefined model or ConfigError, model object -> that object, anything else raises; only predefined models are written, by name, and read back as themselves (yaml_roundtrip); equality is symmetric, astropy vs user-defined never equal, two user-defined models always equal (documented). Every kind of value is passed to the real functions and to Configuration.create.",
     "C17": " The shape of the code the model abstracts is regenerated (k_algebra): attributes compared by each __eq__ (equal_nan only for sampled data), the methods each container class defines, compatibility on binning AND patches by both base classes, checked addition, scalar-only multiplication. Constructors (Yaw.C17Ctor.*): the shape validation of PatchedCounts / PatchedSumWeights / SampledData / NormalisedCounts / CorrFunc is regenerated as Bool kernels over shapes (index errors count as rejection) and proved to accept EXACTLY the documented shapes; arrays of 0..4 dimensions are given to the real constructors and compared with kernel and spec (this found the 30th repository defect, ff1937b).",
     "C14": " from_3d is invariant under positive scaling (fromVec_scale), hence the spherical mean is the sky position of the direction of the weighted vector sum (mean_direction) and a single point is its own mean.",
